@@ -41,11 +41,14 @@ FLOORS = {
 }
 JOBS = {"quick": 1, "thorough": 16}
 
+CASE_TIMEOUT_S = 900
+AMBIENT_FILES = ['test_coordinates.py', 'test_projections.py', 'test_base.py', 'test_synthetic.py', 'test_utils.py', 'test_blockreduce.py']
+
 
 def plan(tier):
     if tier == "quick":
         return collections.OrderedDict(inside=80, get_region=60, pad=40, scatter=40, project=30, maxabs=40, reject=40, nodes=40, nested=12)
-    return collections.OrderedDict(inside=1200, get_region=900, pad=600, scatter=500, project=300, maxabs=600, reject=500, nodes=500, nested=150)
+    return collections.OrderedDict(inside=1200, get_region=900, pad=600, scatter=500, project=300, maxabs=600, reject=500, nodes=500, nested=150, ambient=6)
 
 
 def _valid_region(region):
@@ -323,6 +326,10 @@ def _projections(rng):
 
 
 def run_case(run, tap, stream, index, rng):
+    if stream == "ambient":
+        from .. import core as _core
+
+        return _core.ambient_tests(run, AMBIENT_FILES[index])
     import verde as vd
     import verde.coordinates as vc
 
